@@ -1,11 +1,15 @@
 """C14 - non-maximum suppression: proof (Props/C14.v) + exact correspondence of the kept indices between the real
-`similari::utils::nms::nms` and the Coq model (Model/Nms.v) fed with the real ranks and the real coverage ratios
-(harness bin `nms`), + the property oracles applied directly to the implementation's output.
+`similari::utils::nms::nms` and the Coq model (Model/Nms.v), whose score filter, rank, coverage ratio (intersection / area
+of the LOWER box) and strict comparison with the threshold are the definitions TRANSLATED from src/utils/nms.rs on every
+run (gen/ScalarNms.v) and which is fed only with the boxes, scores, thresholds and the table of intersection areas
+`Universal2DBox::intersection(hi, lo) as f32` computed by the crate's own function (harness bin `nms`),
++ the property oracles applied directly to the implementation's output.
 
 Decisions (documented here because they shape what is compared):
-* `covers(hi, lo)` is an oracle: the harness evaluates `Universal2DBox::intersection(hi, lo) as f32 / lo.area()` with the
-  crate's own functions for every ordered pair of positive-size boxes; model and oracle compare it with the threshold
-  (`> thr`, strictly).  A NaN ratio (the f64 clipper can return garbage on rotated nested boxes with collinear edges,
+* the property oracles use the implementation's own ratio `Universal2DBox::intersection(hi, lo) as f32 / lo.area()` (field M)
+  and compare it with the threshold (`> thr`, strictly); the model gets only the intersection areas (field I), see above.
+  The model divides exactly, the implementation in f32: cases with a ratio within 1e-6 (relative) of the threshold that
+  is not decided exactly are near-ties, counted and not compared with the model (`near_tie`).  A NaN ratio (the f64 clipper can return garbage on rotated nested boxes with collinear edges,
   the known C08 finding) compares false in Rust; here it is dropped from the table (= not covering).  Nothing below
   compares floating point results with each other: idempotence and correspondence compare index lists only.
 * "higher-ranked" is read permissively for equal ranks (the text does not fix tie order): a dropped box must be covered
@@ -69,11 +73,17 @@ def parse_line(line):
             continue
         i, j, v = e.split(":")
         m[(int(i), int(j))] = "P" if v == "P" else int(v)
+    inter = {}
+    for e in parts.get("I", "").split(","):
+        if not e:
+            continue
+        i, j, v = e.split(":")
+        inter[(int(i), int(j))] = int(v)
     kept = "P" if parts["kept"] == "P" else [int(x) for x in parts["kept"].split(",") if x]
     ag = parts["again"]
     again = ag if ag in ("P", "-") else [int(x) for x in ag.split(",") if x]
     return {"kind": parts.get("kind", "?"), "thr": int(parts["thr"]), "st": parse_opt(parts["st"]), "boxes": boxes,
-            "kept": kept, "again": again, "M": m}
+            "kept": kept, "again": again, "M": m, "I": inter}
 
 
 def case_text(c):
@@ -112,21 +122,63 @@ def metric_fraction(v):
     return f32_bits_to_fraction(v)
 
 
+def qopt(b):
+    return "None" if b is None else "(Some %s)" % q_lit(f32_bits_to_fraction(b))
+
+
 def coq_case(c):
+    """the model is given the boxes, the scores, the thresholds (exact rationals of the f32s) and the table of intersection
+    areas `intersection(hi, lo) as f32`; the ratio, the comparison, the filter and the rank are the translated nms.rs text"""
     dets = []
     for i, b in enumerate(c["boxes"]):
-        sc = "None" if b[5] is None else "(Some %s)" % q_lit(f32_bits_to_fraction(b[5]))
-        dets.append("{| d_id := %s; d_score := %s; d_height := %s; d_aspect := %s |}" % (
-            n_lit(i), sc, q_lit(f32_bits_to_fraction(b[4])), q_lit(f32_bits_to_fraction(b[3]))))
+        dets.append("mk_det %s %s %s %s %s %s %s" % (
+            n_lit(i), q_lit(f32_bits_to_fraction(b[0])), q_lit(f32_bits_to_fraction(b[1])), qopt(b[2]),
+            q_lit(f32_bits_to_fraction(b[3])), q_lit(f32_bits_to_fraction(b[4])), qopt(b[5])))
     rows = {}
-    for (i, j), v in c["M"].items():
+    for (i, j), v in c["I"].items():
         fr = metric_fraction(v)
         if fr is None or fr == 0:
             continue
         rows.setdefault(i, []).append("(%s, %s)" % (n_lit(j), q_lit(fr)))
     tab = coq_list(["(%s, %s)" % (n_lit(i), coq_list(r)) for i, r in sorted(rows.items())])
-    st = "None" if c["st"] is None else "(Some %s)" % q_lit(f32_bits_to_fraction(c["st"]))
-    return "run_case %s %s (%s : metric_tab) %s" % (st, q_lit(f32_bits_to_fraction(c["thr"])), tab, coq_list(dets))
+    return "run_case %s %s (%s : inter_tab) %s" % (qopt(c["st"]), q_lit(f32_bits_to_fraction(c["thr"])), tab, coq_list(dets))
+
+
+GUARD_REL = Fraction(1, 10 ** 6)
+
+
+def f32_exact(fr):
+    """is the rational exactly an f32 value (so that the implementation's f32 arithmetic made no rounding there)"""
+    try:
+        import struct
+        return Fraction(struct.unpack("<f", struct.pack("<f", float(fr)))[0]) == fr
+    except (OverflowError, struct.error):
+        return False
+
+
+def near_tie(c):
+    """The model divides exactly, the implementation in f32 (area: two rounded products, ratio: one rounded division,
+    relative error <= ~2e-7).  A case is a near-tie when, for some ordered pair of passing boxes, the exact ratio
+    intersection/area lies within GUARD_REL of the threshold without the comparison being decided exactly: such cases
+    are counted and not compared with the model.  A ratio exactly ON the threshold is compared when the area products are
+    exact in f32 (the dedicated boundary stream), because then the implementation's ratio is exact too."""
+    n, rank, ps, valid, covers, ratio, thr = facts(c)
+    u = [i for i in range(n) if ps[i] and valid[i]]
+    for (a, b), v in c["I"].items():
+        if a not in u or b not in u:
+            continue
+        inter = metric_fraction(v)
+        if inter is None:
+            continue
+        h = f32_bits_to_fraction(c["boxes"][b][4])
+        asp = f32_bits_to_fraction(c["boxes"][b][3])
+        r = inter / (h * asp * h)
+        if r == thr:
+            if not (f32_exact(h * asp) and f32_exact(h * asp * h)):
+                return True
+        elif abs(r - thr) <= GUARD_REL * thr:
+            return True
+    return False
 
 
 # ------------------------------------------------------------------------------------------------------------
@@ -441,7 +493,9 @@ def run(chk):
             loop_r, rec_r = model_res[i]
             if loop_r != rec_r:
                 loop_vs_rec.append(i)
-            if c["kept"] == "P" or loop_r != c["kept"]:
+            if near_tie(c):
+                hist["near_tie(not compared with the model)"] += 1
+            elif c["kept"] == "P" or loop_r != c["kept"]:
                 disagreements.append(i)
         for key, msg in full_oracle(c, gstats):
             failures.append((i, key, msg))
